@@ -75,6 +75,8 @@ pub enum Op {
     SetFees { fees: [String; 3] },
     Donate { amount: u128 },
     DepositWithdraw { amount: u128 },
+    /// Deposit with a coin of a foreign denom attached next to (or instead of) the vault asset
+    DepositWithJunk { amount: u128, sent: u128, junk: u128 },
     /// hostile: Withdraw {} (token-factory entry point) called directly with a native coin attached
     WithdrawDirect { junk: bool, amount: u128 },
 }
@@ -113,6 +115,8 @@ pub struct VaultScen {
     pub fee18: [u128; 3],
     pub blocks: u64,
     pub model: Model,
+    /// foreign coins the next deposit message carries in addition
+    pub junk_next: std::cell::Cell<u128>,
 }
 
 #[derive(Clone, Debug)]
@@ -315,7 +319,14 @@ impl VaultScen {
     fn deposit_msgs(&self, vault: &str, asset: &AssetInfo, amount: u128, sent: u128) -> Vec<CosmosMsg> {
         let mut v = vec![];
         let funds: Vec<Coin> = match asset {
-            AssetInfo::NativeToken { denom } => if sent > 0 { vec![coin(sent, denom)] } else { vec![] },
+            AssetInfo::NativeToken { denom } => {
+                let mut f = if sent > 0 { vec![coin(sent, denom)] } else { vec![] };
+                if self.junk_next.get() > 0 {
+                    f.push(coin(self.junk_next.get(), "ujunk"));
+                    f.sort_by(|a, b| a.denom.cmp(&b.denom));
+                }
+                f
+            }
             AssetInfo::Token { contract_addr } => {
                 if sent > 0 {
                     v.push(wasm_exec(contract_addr, &cw20::Cw20ExecuteMsg::IncreaseAllowance { spender: vault.to_string(), amount: Uint128::new(sent), expires: None }, vec![]));
@@ -489,6 +500,7 @@ impl Scenario for VaultScen {
             fee18,
             blocks: 0,
             model: Model::default(),
+            junk_next: std::cell::Cell::new(0),
         };
         // vault1 liquidity + borrower purse (both assets)
         let m = s.deposit_msgs(&s.vault1.clone(), &s.asset1.clone(), 10u128.pow(10), 10u128.pow(10));
@@ -620,6 +632,13 @@ impl Scenario for VaultScen {
         }
         let kind = rng.weighted(&self.cfg.weights);
         let op = match kind {
+            0 if self.cfg.kind == Kind::Native && rng.chance(1, 10) => {
+                // a coin of a foreign denom rides along (it sorts before the vault's denom); the declared
+                // amount equals the foreign amount, the vault asset is missing, short or complete
+                let amount = rng.range128(1, 1_000);
+                let sent = *rng.pick(&[0u128, 1, amount]);
+                Op::DepositWithJunk { amount, sent, junk: amount }
+            }
             0 => {
                 let amount = rng.edge_amount(ubal / 2).max(1);
                 let sent = match rng.below(10) { 0 => amount.saturating_sub(1), 1 => amount.saturating_add(1), 2 => 0, _ => amount };
@@ -819,6 +838,11 @@ pub fn apply(s: &mut VaultScen, step: &Step, ctx: &mut Ctx) {
         }
         Op::Withdraw { lp } => {
             do_withdraw(s, ctx, actor, *lp, step.fault, "withdraw");
+        }
+        Op::DepositWithJunk { amount, sent, junk } => {
+            s.junk_next.set(*junk);
+            do_deposit(s, ctx, actor, *amount, *sent, Fault::None, "deposit_with_foreign_coin");
+            s.junk_next.set(0);
         }
         Op::WithdrawDirect { junk, amount } => {
             // an unrelated coin, the other vault's asset, or (native vault, even amounts) the vault's OWN asset
